@@ -18,7 +18,7 @@ TEXT = {
         "level": "Every public operation of the real StorageBackendBase (lookup, read result, is-memoized, memoize with or without key override, forget call / function / everything, "
                  "listings, custom metadata) is proved to refine one dictionary keyed by 'function-with-version/argument-hash' held by the abstract metadata source, and to preserve "
                  "cache/store coherence (whatever the write-through MemoryCache or its weak references hold is exactly what the store holds, for any cache budget or no cache); "
-                 "every MemoryCache method is proved against its own contract. The history quantifier follows by induction over these per-operation contracts.",
+                 "every MemoryCache method is proved against its own contract. The history quantifier follows by induction over these per-operation contracts. The metadata source's path scheme (_get_function_path, _get_path, _get_metadata_path, _get_metadata_key) is proved to be the documented layout m/<qualified name>/<argument hash>.memento.json / .metadata.<key>[.with_data]; forget_call is proved to make one non-recursive listing of the call's directory with the call's file name as prefix and to delete every listed key with all its versions and nothing else, forget_function / forget_everything to delete the function's directory / the root recursively, put_memento / write_metadata to write exactly one object under the call's memento path / metadata key. The _FilesystemDataSource functions proved for C08 (versioned objects, link files) are verified in this check as well.",
         "note": "The memory backend (storage_memory.MemoryStorageBackend: nested defaultdict/dict objects modelled as mutable mapping objects on the heap) is proved against the same dictionary view for "
                 "__init__, lookups, is-memoized, read result, memoize, forget call / everything, custom metadata and list_functions (nothing without a live entry is listed -- D5, repaired); its forget_function, "
                 "list_mementos and the 'every live function is listed' direction are not under contract. Partial: DataSourceMetadataSource is not proved against the interface contract (assumed; "
@@ -30,7 +30,8 @@ TEXT = {
         "level": "Codec.BlobStrategy.store and NullStrategy.store are proved, for all inputs, against the abstract DataSource: the returned key is 'c/'+SHA-256(bytes) when no override is given, "
                  "the bytes under the returned version are the serialized bytes, an existing content key is reused without any write (deduplication), every previously readable version "
                  "keeps its bytes (immutability), and the store-wide integrity invariant J (bytes under a content key hash to it) is preserved, also on I/O errors. StorageBackendBase.memoize "
-                 "is proved (under C05) to keep every old version readable with the same content.",
+                 "is proved (in this check, with C05's coherence clauses assumed) to keep every old version readable with the same content, forget_call / forget_function / forget_everything to leave the "
+                 "data source untouched (no write, no version removed or changed, no content key re-pointed), and read_result to return what is stored under the memento's own content key.",
         "note": "Assumed: SHA-256 injective; the DataSource interface contract (output creates a fresh version, versions immutable) -- _FilesystemDataSource is not proved against it; "
                 "override keys do not start with 'c/'; encode() is a function of the object.",
         "technique": "contract-based deductive verification: own VC generator over the real source + z3/cvc5",
@@ -49,7 +50,7 @@ TEXT = {
                  "a call whose memento is stored and readable runs no body, memoizes nothing and returns the stored outcome (a stored MementoException converted back); a call that is not stored runs "
                  "the body exactly once, under the per-call lock and with exactly the effective keyword arguments, returns what the body returned (key-override wrapper removed) or the exception it raised, "
                  "memoizes at most once with result_type = from_object(value) and the body's override key; RemoteCallException / NonMemoizedException (and subclasses) are re-raised and never memoized; "
-                 "an IOError while reading falls back to recomputation and an IOError while writing is swallowed.",
+                 "an IOError while reading falls back to recomputation and an IOError while writing is swallowed. MementoFunctionBase.call is proved to dispatch exactly one reference (this function, the call's own positional and keyword arguments) and to return the single slot of the runner's list when it is a value and raise it when it is an exception object. ResultType.from_object is proved against the table of result kinds and Python's class hierarchy: every supported value gets exactly its kind, the more specific kind wins where one class is a subclass of another (bool before int, datetime before date), and complex numbers, arrays of other element types and other classes raise ValueError.",
         "note": "Partial: ResultType.from_object, forget and the storage/codec value round trip are assumed contracts here (storage side proved under C05/C07). The exception name round trip is proved: "
                 "MementoException.from_exception records language::module:qualified-name, __init__ accepts exactly such names (regex from the source, translated mechanically), to_exception rebuilds an instance of the "
                 "class reached by walking the qualified name from the module, from the recorded message, or returns itself (other language / not a class / constructor needs other arguments). "
@@ -123,7 +124,7 @@ TEXT = {
                  "package scope / blacklist, to raise DependencyNotFoundError exactly for a required name that ends without a rule, and to leave for an optional name that stops at something missing an "
                  "undefined-symbol rule watching exactly the place where the name will appear; the collect_transitive_dependencies methods of memento-function and plain-function rules are proved (loop "
                  "invariants, any number of names) not to descend into a rule already collected, otherwise to record it and visit every declared / detected name of its function once, from that function's "
-                 "globals, under its own name, marking dependencies of the root as direct, and to neither record nor look into a plain function outside the package scope.",
+                 "globals, under its own name, marking dependencies of the root as direct, and to neither record nor look into a plain function outside the package scope. The three try_resolve strategies are proved to recognise a memento function behind any functools.wraps chain (the rule is for the first one), a callable with a global scope, and a value that can be serialised (the rule records the serialisation) -- and nothing else.",
         "note": "Partial: the AST visitor list_dotted_names and the strategy loop resolve_symbol / try_resolve are summarised by uninterpreted functions (assumed); df()/graph linking is not covered; "
                 "exactness w.r.t. the reference graph of an arbitrary program is the induction over these per-call contracts, not a machine-checked theorem; _extract_fn_ref_args (recursive walk) is an assumed summary.",
         "technique": "contract-based deductive verification: own VC generator over the real source + z3/cvc5",
@@ -135,7 +136,7 @@ TEXT = {
                  "groups). FunctionReference.__init__ is proved to build exactly that name (cluster prefix present whenever a cluster is given, also when the version contains '::'), to raise nothing, and to "
                  "take the parameter names it is given (an empty list included). from_qualified_name is proved never to raise on a well-formed stored name whichever of {module missing, attribute missing, "
                  "not a memento function, version mismatch} happens, in the default as in a named cluster, and to fall back to an external reference carrying exactly the stored name; "
-                 "UnboundExternalMementoFunction.__init__ is proved for clusters None and named.",
+                 "UnboundExternalMementoFunction.__init__ is proved for clusters None and named. DataSourceMetadataSource.get_mementos is proved to return one slot per request and to let neither an unknown function nor an I/O error escape (the slot is None).",
         "note": "Partial: DataSourceMetadataSource.get_mementos/list_functions and the memory backend listing are not under contract; _find_function's exception set is assumed (importlib / getattr). "
                 "Known finding (format-inherent): a cluster that itself reads as 'module:function#...' is indistinguishable from a cluster-less name whose version contains '::'. Clusters containing both ':' and '#' "
                 "in other shapes are unambiguous but outside the proved domain. Three genuine defects found by these contracts were repaired in /repo (see known_findings.json).",
@@ -184,7 +185,7 @@ TEXT = {
                  "chain, every behavioural attribute of the code object that the property names -- bytecode (base64), names, variable / free / cell names, argument counts, flags, and the constants "
                  "recursively (nested code objects through the same function, other constants by their own rendering, in order) -- so two functions differing in any of them feed different text to the "
                  "hash. In-process staleness: MementoFunction._update_dependencies uses a cached version only when NO collected rule reports a change and did_change of the four rule kinds is exact "
-                 "(contracts of C13). Version in the key: FunctionReference.__init__ puts '#version' into the qualified name under which results are stored (contracts of C12).",
+                 "(contracts of C13). Version in the key: FunctionReference.__init__ puts '#version' into the qualified name under which results are stored (contracts of C12). In this check _recompute_version, _validate_dependency, the dependency traversal (HashRule._visit_dependency, the two collect_transitive_dependencies) and the three try_resolve strategies are verified as well (contracts described under C03 / C14).",
         "note": "Partial: 'equals un-memoized execution' for whole programs and the exactness of the collected rule set (dependency analysis) are not claimed. Known finding (genuine, not repaired): default "
                 "values of positional and keyword-only parameters are not hashed. Assumed: json.dumps / base64 / utf-8 / repr of constants / SHA-256 injective.",
         "technique": "contract-based deductive verification: own VC generator over the real source + z3/cvc5",
@@ -250,3 +251,10 @@ TEXT["C14"]["level"] += (" The caller whose closure decides is the function a mo
                          "package scope handed to the dependency collection is proved to be exactly the module's __package__.")
 TEXT["C04"]["note"] += " The scalar case of _normalized_json is under contract (json.dumps of that value, computed afresh); functools.lru_cache on a helper is modelled as 'served for an equal earlier argument'."
 TEXT["C12"]["level"] += " A stored reference is rebuilt with the parameter names recorded with it: a function found under the same name and version but with another signature gives an external reference (D34, repaired)."
+TEXT["C08"]["level"] += (" memento_run_local and process_existing_memento are verified in this check too (C08's view, clauses of C02 / C10 / C15 assumed): no OSError of "
+                         "memoize or read_result escapes them.")
+TEXT["C18"]["level"] += (" ConfigurationRepository.__init__ is proved (for configurations that name no clusters) to take every field from the explicit argument when one is given and otherwise from the "
+                         "configuration, to replace the cluster map by an explicit one, to default the module list to an empty list and to refuse a repository without a name.")
+TEXT["C18"]["note"] += " The loop of ConfigurationRepository.__init__ that loads the clusters named by the configuration, is not under contract; inside Environment.__init__ the constructors of ConfigurationRepository / _DefaultFunctionCluster and _load_config are summarised by uninterpreted functions."
+TEXT["C18"]["level"] += (" Environment.__init__ is proved to take name and base directory from the explicit arguments, else from the configuration ('default' when it names none), to replace the "
+                         "repository list by an explicit one and otherwise to build one repository per configured entry, in the configured order, each loaded relative to the configured base directory.")
